@@ -181,7 +181,8 @@ def search(ctx, budget, sound, exact, seed_off):
     out = []
     n = 0
     for _ in range(2500 * budget):
-        n += law_case(rand_case(rng), out, sound=sound, exact=exact)
+        case_ = rand_case(rng)
+        n += vlib.limited(lambda: law_case(case_, out, sound=sound, exact=exact), 10, 0)
     best, hist = {}, {}
     for c in out:
         hist[c["kind"]] = hist.get(c["kind"], 0) + 1
